@@ -367,3 +367,9 @@ def run(ctx):
                    construct="guard of _original_rule[%r] = %s" % (k, src(n.ast.value)[:40]),
                    detail="" if okg else "facts: %s" % sorted(t for t, tv in fs if "original_rule" in t), analysis="must-hold branch facts")
     ctx.floor("C12.REPLACE", n_none, 4, "derived-default None records")
+
+    # ---------------------------------------------------------------- C12.ARGS
+    from ..rules_common import check_call_arguments
+    check_call_arguments(ctx, "C12.ARGS", "C12")
+
+
